@@ -32,17 +32,20 @@ Fixpoint san_name (first : bool) (skip : nat) (s : string) : string :=
     end
   end.
 
-(* if len(v) > 100 { v = v[:100] + "..." }   (a byte cut: may split a rune) *)
-Definition san_value (v : string) : string :=
+(* if len(v) > 100 { v = v[:100] + "..." }   (a byte cut: may split a rune); v = strings.ToValidUTF8(v, "\uFFFD") *)
+Definition cut_value (v : string) : string :=
   if (100 <? Z.of_nat (String.length v)) then append (stake 100 v) "..." else v.
+Definition san_value (v : string) : string := to_valid false 0 (cut_value v).
+(* before the fix of the label document: the cut only *)
+Definition sanitize1_old (l : label) : label := (san_name true 0 (fst l), cut_value (snd l)).
 
 Definition sanitize1 (l : label) : label := (san_name true 0 (fst l), san_value (snd l)).
 Definition sanitize (ls : list label) : list label := map sanitize1 ls.
 
 (* ------------------------------------------------------------------ encodeLabels
-   "{" + join(",", Quote(name) + ":" + Quote(value)) + "}" *)
+   "{" + join(",", jsonQuote(name) + ":" + jsonQuote(value)) + "}" *)
 Definition enc_pair (isprint : Z -> bool) (l : label) : string :=
-  append (go_quote isprint (fst l)) (String ":" (go_quote isprint (snd l))).
+  append (json_quote isprint (fst l)) (String ":" (json_quote isprint (snd l))).
 Fixpoint enc_join (isprint : Z -> bool) (ls : list label) : string :=
   match ls with
   | [] => EmptyString
@@ -51,6 +54,22 @@ Fixpoint enc_join (isprint : Z -> bool) (ls : list label) : string :=
   end.
 Definition encode_labels (isprint : Z -> bool) (ls : list label) : string :=
   String "{" (append (enc_join isprint ls) "}").
+(* the label list a reader of the document gets: ill-formed bytes (none after sanitizeLabels) read U+FFFD *)
+Definition fix_label (l : label) : label := (utf8_fix 0 (fst l), utf8_fix 0 (snd l)).
+Definition label_valid (l : label) : bool := utf8_valid 0 (fst l) && utf8_valid 0 (snd l).
+
+(* encodeLabels before the fix: strconv.Quote, which is not a JSON quoter
+   "{" + join(",", Quote(name) + ":" + Quote(value)) + "}" *)
+Definition enc_pair_q (isprint : Z -> bool) (l : label) : string :=
+  append (go_quote isprint (fst l)) (String ":" (go_quote isprint (snd l))).
+Fixpoint enc_join_q (isprint : Z -> bool) (ls : list label) : string :=
+  match ls with
+  | [] => EmptyString
+  | [l] => enc_pair_q isprint l
+  | l :: r => append (enc_pair_q isprint l) (String "," (enc_join_q isprint r))
+  end.
+Definition encode_labels_quote (isprint : Z -> bool) (ls : list label) : string :=
+  String "{" (append (enc_join_q isprint ls) "}").
 
 (* ------------------------------------------------------------------ what reaches fingerprintLabels
    Every log/metric protocol ends in onEntries(labels, ...). The label list it passes is
@@ -187,19 +206,18 @@ Definition mm_doc (c : lcase) : bool :=
 (* spec oracles on the implementation's observations *)
 Definition sv_perm (c : lcase) : bool := negb (forallb (fun f => f =? lc_fp c) (lc_fps c)).
 Definition doc_bad (c : lcase) : bool := negb (olabels_eqb (json_decode (lc_doc c)) (lc_san c)).
-(* the document does not read back although every byte is in the class that must *)
-Definition sv_doc (c : lcase) : bool := doc_bad c && labels_json_ok (isprint_tbl (lc_print c)) (lc_san c).
-(* the recorded finding: does not read back, some byte outside the class *)
-Definition kf_doc (c : lcase) : bool := doc_bad c && negb (labels_json_ok (isprint_tbl (lc_print c)) (lc_san c)).
-(* sanity of the class itself: inside the class the MODEL's document must read back, outside it must not
-   (otherwise the class is wrong and the finding's key would be misreported) *)
-Definition class_wrong (c : lcase) : bool :=
+(* the observed document does not read back as the observed sanitized label list *)
+Definition sv_doc (c : lcase) : bool := doc_bad c.
+(* the observed sanitized values are not all valid UTF-8 (sanitizeLabels must see to it) *)
+Definition sv_utf8 (c : lcase) : bool := negb (forallb label_valid (lc_san c)).
+(* strconv.Quote would have written other bytes although its document was JSON for the label set: the fix
+   must not change the stored text of series that were readable *)
+Definition sv_compat (c : lcase) : bool :=
   let ip := isprint_tbl (lc_print c) in
-  negb (Bool.eqb (olabels_eqb (json_decode (encode_labels ip (lc_san c))) (lc_san c))
-                 (labels_json_ok ip (lc_san c))).
+  labels_json_ok ip (lc_san c) && negb (String.eqb (encode_labels_quote ip (lc_san c)) (lc_doc c)).
 
 Definition ids (f : lcase -> bool) (cs : list lcase) : list Z := map lc_id (filter f cs).
 (* all verdicts in one pass (one vm_compute = the case list is compiled once):
-   [mm_san; mm_fp; mm_doc; sv_perm; sv_doc; kf_doc; class_wrong] *)
+   [mm_san; mm_fp; mm_doc; sv_perm; sv_doc; sv_utf8; sv_compat] *)
 Definition lreport (cs : list lcase) : list (list Z) :=
-  [ids mm_san cs; ids mm_fp cs; ids mm_doc cs; ids sv_perm cs; ids sv_doc cs; ids kf_doc cs; ids class_wrong cs].
+  [ids mm_san cs; ids mm_fp cs; ids mm_doc cs; ids sv_perm cs; ids sv_doc cs; ids sv_utf8 cs; ids sv_compat cs].
